@@ -33,6 +33,7 @@ def check(ctx: Ctx, rep: Report):
     rep.rule("C08.R1", "reason table equals the Modbus exception codes; rejection message = FAILURE_CODES.get(code byte, 'UNKNOWN') raised iff function code != cmd", 5)
     rep.rule("C08.R2", "rejection is delivered at once (caught object set on the future, nothing scheduled before), never retried, never converted", 7)
     rep.rule("C08.R3", "callers compare ex.message against a real reason of the table", 4)
+    rep.rule("C08.R4", "no fragment of an earlier transmission survives into a retransmission (shared with C07.R1): the exception frame is validated on its own", 4)
     prog, res = ctx.prog, ctx.res
     fams = ctx.memo("families", lambda: families(prog, res))
     rejected = prog.cls("RequestRejectedException")
@@ -95,6 +96,14 @@ def check(ctx: Ctx, rep: Report):
               bad="RequestRejectedException.__init__ no longer stores the message it is given")
     r2(ctx, rep, rejected)
     r3(ctx, rep, rejected, table)
+    # ---- R4 shared with C07: an exception frame answering a retransmission must not be glued to a fragment of the
+    # timed-out attempt (it would be validated as part of a regular answer and the rejection lost)
+    from .c07 import r1 as c07_r1
+    sub = Report("C07", rep.tier)
+    for ci in proto_classes(ctx):
+        c07_r1(ctx, sub, ci)
+    for o in sub.obligations:
+        rep.obligations.append(type(o)("C08.R4", o.key, o.where, o.what, o.status, o.detail))
 
 
 def r2(ctx, rep, rejected):
